@@ -2,6 +2,7 @@
 C03 - range functions see exactly the window's samples and compute the reference value.
 -/
 import PromqlVerif.Proofs.Den
+import PromqlVerif.Proofs.BufProof
 namespace PromqlVerif.C03
 open PromqlVerif Val
 
@@ -11,6 +12,21 @@ variable {V : Type} [Val V]
 the reference evaluation of the range function - for every storage, range, offset / @, step -/
 theorem rangefn_is_reference (c : Ctx V) (fn : String) (s : VSel) (range t : Int) :
     (engRangeFn c fn s range).den t = .ok (evalRangeFn c fn s range t) := engRangeFn_den c fn s range t
+
+/-- the engine's per-series range scan - `selectPoints` driving Prometheus' `BufferedSeriesIterator`
+and re-using its output slice from step to step - returns at every step exactly the window's
+non-stale samples: for every sorted sample list, every range `≥ 0` and every strictly increasing
+sequence of window ends (any start, step, offset and @; any ratio of step to range, so windows
+that overlap, touch or leave gaps) -/
+theorem buffered_scan_is_reference (S : List (Sample V)) (hs : SortedT S) (range : Int) (hr : 0 ≤ range)
+    (ends : List Int) (hm : ends.Pairwise (· < ·)) :
+    selectRangesB range (Buf.new S) [] ends = ends.map (fun r => windowPoints (r - range) r S) :=
+  selectRanges_along_steps S hs range hr ends hm
+
+/-- the hypotheses are met by a series with a staleness marker and overlapping windows -/
+example : SortedT ([⟨1, .num 1⟩, ⟨5, .stale⟩, ⟨9, .num 3⟩] : List (Sample Int)) ∧
+    ([4, 9, 10] : List Int).Pairwise (· < ·) := by
+  constructor <;> simp [SortedT]
 
 /-- the window is exactly the non-stale samples with `mint ≤ t ≤ maxt`: a function of the
 series and the window only - independent of what earlier steps consumed -/
